@@ -35,6 +35,8 @@ fn step_targets(s: &Step) -> Vec<TargetRef> {
 			}
 		}
 		Step::ProbeFaulted { fallback } => v.push(*fallback),
+		Step::UnwindingDrop { inner } => v.extend(step_targets(inner)),
+		Step::Kill { leaf } => v.push(TargetRef::Leaf(*leaf)),
 		_ => {}
 	}
 	v
@@ -88,6 +90,8 @@ fn map_step(s: &mut Step, leaf_map: &dyn Fn(usize) -> usize, coll_map: &dyn Fn(u
 		}
 		Step::ProbeFaulted { fallback } => map_target(fallback, leaf_map, coll_map),
 		Step::PhantomHold { leaf, .. } | Step::PhantomRelease { leaf } => *leaf = lock_map(*leaf),
+		Step::UnwindingDrop { inner } => map_step(inner, leaf_map, coll_map, lock_map),
+		Step::Kill { leaf } => *leaf = leaf_map(*leaf),
 		Step::TempColl { members, .. } => {
 			for m in members.iter_mut() {
 				map_member(m, leaf_map, coll_map);
